@@ -110,6 +110,9 @@ func (s *c13State) writePolicy(p *c13Policy) {
 		return
 	}
 	for i, f := range c13Files {
+		if p.Code[i] == "" {
+			continue // this device has no such file
+		}
 		if p.Form == 0 {
 			s.FS[d+f] = p.Code[i]
 		} else {
@@ -125,9 +128,21 @@ func (s *c13State) writePolicy(p *c13Policy) {
 	}
 }
 
-func c13Initial() *c13State {
+// c13Layouts: which of the files code/DEV, code/ipv6/DEV, code/DEV.raw the
+// device has (dual stack with raw, IPv6 only with raw, IPv4 only, ...).
+var c13Layouts = [][3]bool{{true, true, true}, {false, true, true}, {true, false, false}, {false, true, false}, {true, false, true}}
+
+func c13Initial() *c13State { return c13InitialLayout(c13Layouts[0]) }
+
+func c13InitialLayout(have [3]bool) *c13State {
 	s := &c13State{FS: make(map[string]string)}
-	s.Pols = []c13Policy{{N: 1, Code: [3]string{"v4-0\n", "v6-0\n", "raw-0\n"}}}
+	code := [3]string{"v4-0\n", "v6-0\n", "raw-0\n"}
+	for i := range code {
+		if !have[i] {
+			code[i] = ""
+		}
+	}
+	s.Pols = []c13Policy{{N: 1, Code: code}}
 	s.Device = [3]string{"factory\n", "", ""}
 	s.writePolicy(&s.Pols[0])
 	s.FS["policies/current"] = "@p1"
@@ -240,13 +255,12 @@ func (w *c13Worker) apply(s *c13State, event string) *c13State {
 	switch event {
 	case "newpolicy-same", "newpolicy-v4", "newpolicy-v6", "newpolicy-raw":
 		p := c13Policy{N: n.cur().N + 1, Code: n.cur().Code}
-		switch event {
-		case "newpolicy-v4":
-			p.Code[0] = uniq("v4")
-		case "newpolicy-v6":
-			p.Code[1] = uniq("v6")
-		case "newpolicy-raw":
-			p.Code[2] = uniq("raw")
+		idx := map[string]int{"newpolicy-v4": 0, "newpolicy-v6": 1, "newpolicy-raw": 2}
+		if i, ok := idx[event]; ok {
+			if p.Code[i] == "" {
+				return nil
+			}
+			p.Code[i] = uniq(strings.TrimPrefix(event, "newpolicy-"))
 		}
 		n.Pols = append(n.Pols, p)
 		n.writePolicy(n.cur())
@@ -443,7 +457,7 @@ func checkC13(tier, replay string) int {
 		fmt.Sscanf(d, "%d", &depth)
 	}
 	rep.Rule = fmt.Sprintf("Exhaustive depth-first enumeration of all histories up to length %d over the events %v "+
-		"(one device, code in v4/v6/raw files, policies p1..pN on disk plain/bz2/removed), starting from a fresh policy database. "+
+		"(one device with code files in the layouts v4+v6+raw, v6+raw, v4, v6, v4+raw - the first at full depth, the others one less -, policies p1..pN on disk plain/bz2/removed), starting from a fresh policy database. "+
 		"States that are identical in all files, device content, observation summary and step number are explored once "+
 		"(exact-state memoisation, no abstraction). After every event the real missing-approve is run. "+
 		"A node is non-trivial if at least one conclusive observation (approve OK or compare) lies in its history; distinct = distinct history. "+
@@ -530,11 +544,20 @@ func checkC13(tier, replay string) int {
 		}
 	}
 
-	// Work items: all applicable prefixes of length 2.
-	root := c13Initial()
-	type item struct{ h []string }
+	// Work items: all applicable prefixes of length 2, for every file
+	// layout (the full depth for the first one, one less for the others).
+	type item struct {
+		root *c13State
+		h    []string
+		d    int
+	}
 	var items []item
-	{
+	for li, layout := range c13Layouts {
+		root := c13InitialLayout(layout)
+		depth := depth
+		if li > 0 {
+			depth--
+		}
 		w := newC13Worker(env, drvBin)
 		for _, e1 := range c13Events {
 			n1 := w.apply(root, e1)
@@ -551,7 +574,7 @@ func checkC13(tier, replay string) int {
 				if n2 == nil {
 					continue
 				}
-				items = append(items, item{[]string{e1, e2}})
+				items = append(items, item{root, []string{e1, e2}, depth})
 			}
 		}
 		w.close()
@@ -565,7 +588,8 @@ func checkC13(tier, replay string) int {
 	env.Parallel(len(items), func(i int) {
 		w := <-workers
 		defer func() { workers <- w }()
-		s := c13Initial()
+		depth := items[i].d
+		s := items[i].root.clone()
 		for _, e := range items[i].h {
 			s = w.apply(s, e)
 		}
